@@ -18,7 +18,7 @@ Compared, real object vs model at IEEE doubles:
   autoreg-conditioner conditioner output, from raw weights + model masks AND from the unwrapped weights (plain MLP), 1e-12
   autoreg-tparams     unwrapped transformer parameters per coordinate (loc, scale / x_pos, y_pos, derivatives), 1e-9
   autoreg-layer-tie   transform, inverse, transform_and_log_det, inverse_and_log_det: values and log-dets, 1e-9 relative
-                      (+ 64 x the smaller one-sided change of the implementation's own output over the two float neighbours of the input, which is
+                      (+ 64 x the one-sided change of the implementation's own output over the two float neighbours of the input, which is
                       ~1e-15 except in ill-conditioned spline bins)
 on random inputs and boundary-directed ones (per transformed coordinate: spline interval ends, their float neighbours, every
 knot of that coordinate's own spline, far outside; affine: 0, +-1, +-1e4, the preimage of 0).
@@ -40,6 +40,23 @@ from harness.common import VERIF, fhex, fparse, hexlist, sha
 
 GROUP = "autoreg"
 THEOREMS_FILE = "Props/X01_autoreg.v"
+# text the calling checks (C01 / C02) may append to their MANIFEST entries
+MANIFEST_ADDENDUM = {
+    "text": "The real MaskedAutoregressive and Coupling LAYERS are inside the model (coq/Model/AutoregNet.v): eqx.nn.MLP conditioner with the Where "
+            "masks applied at evaluation, reshape into one parameter block per coordinate, get_ravelled_pytree_constructor (p + init), unwrap of the "
+            "transformer's wrappers (Affine with softplus(+min_scale) scale; RationalQuadraticSpline knots by softmax/cumsum, derivatives by softplus + "
+            "min_derivative), Vmap = elementwise with summed log-det, the lax.scan inverse. Props/X01_autoreg.v proves, for ALL weights/biases/activations, "
+            "dims, widths, depths, with and without condition: the masked conditioner satisfies the autoregressive hypothesis of C01_maf_inv_fwd (from "
+            "C09's masked_mlp_dependence); every raw parameter block yields a valid transformer (scale > 0, rqs_valid; from C11's lemmas); hence "
+            "inverse(transform x) = x and transform(inverse y) = y for the concrete layers (Coupling: arbitrary MLP); the reported log-det is the sum of the "
+            "transformers' own ln|dy_i/dx_i| at blocks depending on x_<i only and equals ln|det J| for every J whose upper triangle holds the partial "
+            "derivatives (_partial: lower-triangle partials not proved to exist (relu), spline interval ends excluded). Tied on every run to real layer "
+            "objects (weights and transformer perturbed, boundary-directed inputs) by harness/autoreg.py: weights/masks exact, conditioner 1e-12, "
+            "transformer parameters and all four methods 1e-9.",
+    "note": "Exact over R; float rounding not modelled. The serialiser reads the transformer handed to the layer field by field (its leaves are the "
+            "model's init vector) and the raw weights from Where.if_true; jit/vmap are used to evaluate the real methods in batches and every reported "
+            "disagreement is first confirmed on the un-jitted, un-batched method.",
+}
 _L = {}
 
 
@@ -289,8 +306,9 @@ def make_eval(cfg, obj, want_jac):
         fm, flm = o.transform_and_log_det(jnp.nextafter(x, -jnp.inf), c)
         ip, ilp = o.inverse_and_log_det(jnp.nextafter(y, jnp.inf), c)
         im, ilm = o.inverse_and_log_det(jnp.nextafter(y, -jnp.inf), c)
-        # the smaller of the two one-sided changes: at a kink (interval end of a spline) one side is still continuous
-        mn = lambda p, m, v: jnp.minimum(jnp.abs(p - v), jnp.abs(v - m))
+        # both one-sided changes: the larger one is the sensitivity (at a knot the two bins differ a lot); at a kink (an interval
+        # end of a spline, where the log-det jumps) only the smaller one is, the other side being the jump itself
+        mn = lambda p, m, v: jnp.stack((jnp.minimum(jnp.abs(p - v), jnp.abs(v - m)), jnp.maximum(jnp.abs(p - v), jnp.abs(v - m))))
         out.update(fd=mn(fp, fm, f2), fld=mn(flp, flm, fl), idd=mn(ip, im, i2), ild=mn(ilp, ilm, il))
         # conditioning of the returning map, measured on the two float neighbours of the intermediate point
         out["rtd"] = jnp.abs(o.inverse(jnp.nextafter(f, jnp.inf), c) - o.inverse(jnp.nextafter(f, -jnp.inf), c))
@@ -438,6 +456,15 @@ def roundtrip_errors(obj, direction, x, c, tol=1e-6):
         errs.append(f"{'inverse(transform(x))' if direction == 'fwd' else 'transform(inverse(y))'} = {back.tolist()} for input {xa.tolist()}"
                     f"{'' if c is None else ' condition ' + str(np.ravel(c).tolist())} (error {err:.3g})")
     return errs
+
+
+def _near_end(cfg, x):
+    """some coordinate sits on (or one ulp next to) an end of the spline interval: the map has a kink there"""
+    if cfg["t"]["kind"] != "rqs":
+        return False
+    lo, hi = interval_of(cfg["t"])
+    pts = [lo, hi, np.nextafter(lo, -np.inf), np.nextafter(lo, np.inf), np.nextafter(hi, -np.inf), np.nextafter(hi, np.inf)]
+    return bool(np.any(np.isin(np.ravel(np.asarray(x, dtype=float)), pts)))
 
 
 def _at_clip_tie(cfg, x, y):
@@ -666,11 +693,13 @@ def run_units(ctx, theorems=None, n_maf=None, n_coup=None, batch=None):
                     _report(ctx, up, cfg, init, raws, biases, obj, "fwd", x, c, f"unwrapped transformer parameters: model {m_tp[:200]} != implementation {np.ravel(tp).tolist()}",
                             m_tp, np.ravel(tp).tolist(), oracle)
                 checks = (("fwd", m_f, r["f"][k], None), ("fwdld", m_fl, r["f2"][k], float(r["fl"][k])))
-                sv, sl = 64 * _fin(r["fd"][k]), 64 * _fin(r["fld"][k])
+                side = 0 if _near_end(cfg, x) else 1
+                sv, sl = 64 * _fin(r["fd"][k][side]), 64 * _fin(r["fld"][k][side])
             else:
                 m_i, m_il = outs[at: at + 2]
                 checks = (("inv", m_i, r["i"][k], None), ("invld", m_il, r["i2"][k], float(r["il"][k])))
-                sv, sl = 64 * _fin(r["idd"][k]), 64 * _fin(r["ild"][k])
+                side = 0 if _near_end(cfg, x) or _near_end(cfg, r["i"][k]) else 1
+                sv, sl = 64 * _fin(r["idd"][k][side]), 64 * _fin(r["ild"][k][side])
             for method, line, iy, ild in checks:
                 nontriv = bnd or (ild is not None and np.isfinite(ild) and abs(ild) > 1e-3) or (ild is None)
                 ut.count(key + (method,), nontrivial=bool(nontriv), tag=f"{tag0}:{method}:{'boundary' if bnd else 'random'}")
